@@ -91,6 +91,10 @@ def drive(ctx):
         for (x, y) in ((a1, b1), (b1, a1), (b1, c1), (c1, b1), (b1, d1), (a1, a1), (c1, a1)):
             for h in ("deepcopy-pair", "pickle-pair"):
                 ctx.emit("copy", {"how": h}, [x, y])
+        # intervals whose two end-points are EQUAL as instants but differ as values (other zone, other offset kind)
+        for (x, y) in ((a1, b1), (b1, a1), (b1, c1), (c1, a1)):
+            for ab in (False, True):
+                all_hows({"k": "iv", "a": x, "b": y, "abs": ab})
         # durations whose native value cancels out (falsy as a timedelta) although they carry components
         for args in (dict(mo=1, d=-30), dict(y=1, d=-365), dict(d=1, h=-24), dict(), dict(y=-1, mo=12, d=5), dict(w=1, d=-7),
                      dict(mo=2, d=-60, us=0), dict(y=1, mo=1, d=-395)):
